@@ -1281,6 +1281,11 @@ func (o *Map) IndexSet(index, value Object) (err error) {
 		err = ErrInvalidIndexType
 		return
 	}
+	if len(strIdx) > MaxStringLen {
+		// the key (the string form of a non-string index) is a string
+		// value of the script like any other
+		return ErrStringLimit
+	}
 	o.Value[strIdx] = value
 	return nil
 }
